@@ -494,10 +494,11 @@ def main():
                      "statement": "C14_parse_total / C14_parse_full_total carry the hypothesis over_sigma s; real Unicode "
                                   "coverage of theorems AND of the model correspondence is exactly those code points"},
         "token_shape_invariant": {"tokens_checked": n_tok, "violations": n_tok_bad,
-                                  "status": "ASSUMPTION of the model (argued in coq/parse/Prim.v, not proved): every lexer "
-                                            "token is a single character, or letters/digits/dots/commas whose dot-free groups are "
-                                            "all letters or all digits (no letter next to a digit, no sign/underscore/space inside "
-                                            "a token); tested here on every generated text with the implementation's own lexer"},
+                                  "status": "PROVED for the model's lexer (C14_lex_token_shape, coq/parse/LexShape.v): every "
+                                            "token is a single character, or letters/digits/dots/commas with no letter next to a "
+                                            "digit; tested here on every generated text with the IMPLEMENTATION's own lexer.  What "
+                                            "stays trusted: that CPython's int()/float()/Decimal() on tokens of this shape accept "
+                                            "exactly what coq/parse/Prim.v says (validated by the correspondence only)"},
         "length_scaling": {"bound": "every probe shape of 10^5 characters finishes within %.0f s on this machine" % SCALE_BOUND_S,
                            "probes": scaling,
                            "note": "digit-run shapes are QUADRATIC in the length (Decimal(str) / int(Decimal) on n digits): "
@@ -553,7 +554,8 @@ def main():
                       "tz objects are a small datatype; tzname() of user zones enters as two oracle bits read from the "
                       "object handed to parse(); for the local zone the bits and the failure inputs come from the `time` "
                       "module (not from dateutil)",
-                      "ASSUMPTION: lexer token-shape invariant (see coverage.token_shape_invariant), not proved",
+                      "lexer token-shape invariant: proved for the model (C14_lex_token_shape); CPython's acceptance of tokens "
+                      "of that shape is trusted (Prim.v) and validated by the correspondence",
                       "the clock: parserinfo._year is read once per run from the implementation's module-level parser "
                       "and pinned on every parserinfo the check creates; TZ and PYTHONINTMAXSTRDIGITS are pinned"],
                      len(verdict.violations))
